@@ -901,6 +901,94 @@ def check_toidentifier(r, repo, rule):
         raise AnalysisError("toidentifier: the byte-wise encoding of numpy floats was not found")
 
 
+def check_list_argument_unpacking(r, repo, rule="R5.12"):
+    """PrinterBase.init_arguments unpacks the items of a list argument into their own variables.  Interpreted (sa/absint.py) on a
+    list argument with three items for every subset of items the body needs and both settings of force_cast_arguments: the
+    variable of item k must be bound to element k of the caller's list - `make_getitem(arg, k)`, resp. the cast of `arg[k]` -
+    whatever loop or comprehension produces the pairs.  An index taken from a filtered enumeration binds later items to the wrong
+    element whenever an earlier one is unused."""
+    import itertools
+    from sa.absint import Interp, Closure, Unsupported as IUnsupported, PyRaise
+
+    REL_ = "targets/base.py"
+    g = repo.func(REL_, "PrinterBase.init_arguments")
+
+    class Item:
+        __absint_host__ = True
+
+        def __init__(self, k):
+            self.k, self.kind, self.ref = k, "symbol", f"x_{k}_"
+
+        def __repr__(self):
+            return f"item{self.k}"
+
+    class ListArg:
+        __absint_host__ = True
+
+        def __init__(self, items):
+            self.kind, self.ref, self.operands = "list", "x", tuple(items)
+
+        def __getitem__(self, i):
+            return self.operands[i]  # as Expr.__getitem__ of a list: the item expression, which prints as its own variable name
+
+        def __repr__(self):
+            return "x"
+
+    bad = None
+    n_cases = 0
+    for cast in (False, True):
+        for needed in itertools.product((False, True), repeat=3):
+            items = [Item(k) for k in range(3)]
+            arg = ListArg(items)
+            out = []
+
+            class Self_:
+                __absint_host__ = True
+
+                def __init__(self):
+                    self.defined_refs = set()
+                    self.need_ref = {it.ref: nd for it, nd in zip(items, needed)}
+                    self.need_ref["x"] = True
+                    self.force_cast_arguments = cast
+                    self.debug = 0
+
+                def make_assignment(self, typ, ref, value):
+                    return ("assign", ref, value)
+
+                def make_getitem(self, var, index):
+                    return ("getitem", var, index)
+
+                def get_type(self, e):
+                    return "T"
+
+                def make_constant(self, like, value):
+                    return ("cast", like, value)
+
+                def tostring(self, e, tab=""):
+                    return ("print", e)
+
+                def show_value(self, var):
+                    return NotImplemented
+
+            I = Interp(repo)
+            try:
+                res = I.call(Closure(g, {}, I, REL_, bound_self=None), [Self_(), "f", [arg]])
+            except (IUnsupported, PyRaise, TypeError) as e:
+                raise AnalysisError(f"PrinterBase.init_arguments is not interpretable: {getattr(e, 'what', e)}")
+            n_cases += 1
+            want = []
+            for k, nd in enumerate(needed):
+                if nd:
+                    # cast or not, the value bound to the item's variable is element k of the caller's list: a cast applied to the
+                    # printed item reads the variable that is being assigned
+                    want.append(("assign", f"x_{k}_", ("cast", items[k], ("getitem", arg, k)) if cast else ("getitem", arg, k)))
+            got = [a for a in (res or []) if isinstance(a, tuple) and a and a[0] == "assign"]
+            if got != want and bad is None:
+                bad = f"force_cast_arguments={cast}, items needed {list(needed)}: emits {got!r}, expected {want!r}"
+    r.ob(rule, f"{REL_}::PrinterBase.init_arguments binds item k of a list argument to element k ({n_cases} cases)", bad is None,
+         f"{bad}: the variable of an item must be bound to element k of the caller's list (a cast applied to the printed item reads the item's own, still unbound variable; an index from a filtered enumeration picks the wrong element)", loc(REL_, g))
+
+
 def run(repo, tier):
     r = Report("C05", tier, repo, level="other", design_ref="§3/C05")
     r.explanation = (
@@ -921,6 +1009,7 @@ def run(repo, tier):
     r.rule("R5.7", "numeric literals are materialised in the type of their `like` operand on every path of make_constant", floor=2)
     r.rule("R5.8", "generic printer: a ref is returned only when defined; assigned once, before use, and then marked defined", floor=8)
     r.rule("R5.9", "every freshly generated reference name is registered, and registration never reuses a name that is taken", floor=5)
+    r.rule("R5.12", "items of a list argument are unpacked by their position in the caller's list, for every subset of needed items and both settings of force_cast_arguments (interpreted)", floor=1)
     r.rule("R5.10", "operands are substituted into templates in order, unsliced", floor=1)
     r.rule("R5.11", "templates compose: wherever an operand field is spliced bare, every template of the target binds tighter than the surrounding operator", floor=3)
 
@@ -944,4 +1033,5 @@ def run(repo, tier):
     from rules import C08
     sub = C08.run(repo, tier)
     r.absorb(sub, {"R8.1": "R5.12", "R8.2": "R5.12"}, "the static type the printers declare for every kind and operand dtype tuple equals the type the target computes (shared clause with C08: R8.1, R8.2)", floor=100)
+    check_list_argument_unpacking(r, repo)
     return r
